@@ -172,7 +172,7 @@ fn get_best_move_score(
     history: &mut [u16; 64 * 12],
 ) -> Option<Score> {
     #[cfg(daniel729_chess_verif)]
-    crate::verif_hooks::node_poll(table, continue_running, real_depth);
+    crate::verif_hooks::node_poll(game, table, continue_running, real_depth);
     if !continue_running.load(Relaxed) {
         // Halt the search early
         return None;
